@@ -90,6 +90,10 @@ type Req struct {
 	M   string `json:"m"`
 	P   string `json:"p"`             // strconv.Quote form
 	INM string `json:"inm,omitempty"` // "", match, nomatch
+	// Hdr: another request header that makes a server send less than the file:
+	// "range" (bytes=2-5), "range-out" (bytes=100000-), "ims-future"
+	// (If-Modified-Since far in the future), "ims-past".
+	Hdr string `json:"hdr,omitempty"`
 }
 
 type Case struct {
@@ -224,6 +228,16 @@ func checkCase(c Case) (out evid.Outcome) {
 			out.NonTrivial = true
 			out.Classes = append(out.Classes, "conditional")
 		}
+		switch q.Hdr {
+		case "range":
+			hdr.Set("Range", "bytes=2-5")
+		case "range-out":
+			hdr.Set("Range", "bytes=100000-")
+		case "ims-future":
+			hdr.Set("If-Modified-Since", "Fri, 01 Jan 2100 00:00:00 GMT")
+		case "ims-past":
+			hdr.Set("If-Modified-Since", "Thu, 01 Jan 1970 00:00:01 GMT")
+		}
 		spy := serve(q.M, p, hdr)
 		body := string(spy.Body)
 		desc := fmt.Sprintf("%s %s (If-None-Match: %q) with %s", q.M, q.P, hdr.Get("If-None-Match"), js(c.Opts))
@@ -299,6 +313,24 @@ func checkCase(c Case) (out evid.Outcome) {
 			// nothing of any file, so the statement holds)
 			notModified := q.INM == "match" && spy.Status() == 304 && body == ""
 			served := spy.Status() == 200 && (body == wantBody || (q.M == "HEAD" && body == ""))
+			switch q.Hdr {
+			case "range":
+				// part of the file (that is content of the file), or all of it
+				if len(wantBody) >= 6 && spy.Status() == 206 && (body == wantBody[2:6] || (q.M == "HEAD" && body == "")) {
+					served = true
+				}
+				if spy.Status() == 416 && !strings.Contains(body, "MARK:") {
+					served = true // shorter than the range asks for
+				}
+			case "range-out":
+				if spy.Status() == 416 && !strings.Contains(body, "MARK:") {
+					served = true // net/http's answer to a range outside the file: no file content at all
+				}
+			case "ims-future":
+				if spy.Status() == 304 && body == "" {
+					served = true
+				}
+			}
 			if nextRan || !(served || notModified) {
 				return fail(out, "wrong-file-response", "want status 200 body %q (or 304 for a conditional request), got status %v body %q, next ran=%v; %s", wantBody, spy.Codes, clip(body), nextRan, desc)
 			}
@@ -411,6 +443,7 @@ func genCase(t *rapid.T) Case {
 			M:   []string{"GET", "GET", "GET", "HEAD", "POST", "PUT", "", "get", "OPTIONS", "DELETE", "head"}[rapid.IntRange(0, 10).Draw(t, "m")],
 			P:   strconv.QuoteToASCII(p),
 			INM: []string{"", "", "", "match", "nomatch"}[rapid.IntRange(0, 4).Draw(t, "inm")],
+			Hdr: []string{"", "", "", "", "", "range", "range-out", "ims-future", "ims-past"}[rapid.IntRange(0, 8).Draw(t, "hdr")],
 		})
 	}
 	return c
